@@ -13,7 +13,7 @@ LEVEL = 'proof'
 FEATURES_T = [{'gen'}, set(), {'rec'}, {'gen', 'rec'}]
 FEATURES_M = [{'monitor'}, {'baton'}, {'baton', 'gen'}, {'baton', 'rec'}, {'monitor', 'gen'}, {'baton', 'monitor'}]
 FEATURES_I = [{'gen'}, {'gen', 'co'}, {'co'}, {'gen', 'rec'}, {'gen', 'straddle'}, {'gen', 'straddle', 'rec'}]
-FEATURES_C = [{'co', 'cotasks'}, {'co', 'cotasks', 'gen'}, {'co', 'cotasks', 'rec'}, {'co', 'cotasks', 'asyncio'}, {'co', 'asyncio', 'cotasks', 'rec'}]
+FEATURES_C = [{'agen'}, {'agen', 'co', 'cotasks'}, {'agen', 'rec'}, {'co', 'cotasks'}, {'co', 'cotasks', 'gen'}, {'co', 'cotasks', 'rec'}, {'co', 'cotasks', 'asyncio'}, {'co', 'asyncio', 'cotasks', 'rec'}]
 
 
 def run(tier, seed):
